@@ -9,6 +9,8 @@ require (
 	verif.local/simrt v0.0.0
 )
 
+require github.com/cenkalti/backoff/v4 v4.2.0 // indirect
+
 require (
 	github.com/bio-routing/tflow2 v0.0.0-20181230153523-2e308a4a3c3a // indirect
 	github.com/golang/protobuf v1.5.3 // indirect
@@ -22,7 +24,7 @@ require (
 	golang.org/x/sys v0.31.0 // indirect
 	golang.org/x/text v0.23.0 // indirect
 	google.golang.org/genproto v0.0.0-20230410155749-daa745c078e1 // indirect
-	google.golang.org/grpc v1.56.3 // indirect
+	google.golang.org/grpc v1.56.3
 	google.golang.org/protobuf v1.33.0 // indirect
 )
 
